@@ -1640,6 +1640,17 @@ def _m_re_sub(I, args, kw):
 
 _BUILTIN_MODELS[_re.sub] = _m_re_sub
 
+import os.path as _osp  # noqa: E402
+
+
+def _m_path_join(I, args, kw):
+    if not I.symarg(args):
+        return NotImplemented
+    return models.posix_join(*args)
+
+
+_BUILTIN_MODELS[_osp.join] = _m_path_join
+
 
 def register_model(f, model):
     """model(I, args, kwargs) -> value | NotImplemented"""
